@@ -1184,7 +1184,14 @@ impl Prop for C02 {
                 Some(t) => t,
                 None => return cx.inconclusive("seed-without-tables"),
             };
-            let present: Vec<&'static str> = LAYOUT_TABLES.iter().copied().filter(|t| tables.gets(t).is_some()).collect();
+            // (a plain loop: the iterator-adapter form of this line draws a false stack-use-after-scope
+            // report from the ASan build of this nightly)
+            let mut present: Vec<&'static str> = Vec::new();
+            for t in LAYOUT_TABLES.iter() {
+                if tables.gets(t).is_some() {
+                    present.push(*t);
+                }
+            }
             let nf = 1 + rng.small(3);
             for _ in 0..nf {
                 let tname = *rng.pick(&present);
@@ -1231,7 +1238,12 @@ impl Prop for C02 {
             }
             if rng.chance(1, 3) {
                 if let Some(mut tables) = sfnt::Font::parse(&fc.bytes) {
-                    let present: Vec<&'static str> = LAYOUT_TABLES.iter().copied().filter(|t| tables.gets(t).is_some()).collect();
+                    let mut present: Vec<&'static str> = Vec::new();
+                    for t in LAYOUT_TABLES.iter() {
+                        if tables.gets(t).is_some() {
+                            present.push(*t);
+                        }
+                    }
                     if !present.is_empty() {
                         for _ in 0..1 + rng.small(2) {
                             let tname = *rng.pick(&present);
